@@ -65,6 +65,9 @@ ScalarProto(s) ==
       [] s = "decimal" -> <<"message", "j5.types.decimal.v1.Decimal">>
       [] s \in {"key", "key:id62", "key:uuid"} -> <<"string", "">>
       [] s = "any" -> <<"message", "j5.types.any.v1.Any">>
+      \* not a scalar of the language: a reference to the published type j5.messaging.v1.RequestMetadata (the type of the
+      \* implied first field of reqres messages), written object:j5.messaging.v1.RequestMetadata
+      [] s = "msgmeta" -> <<"message", "j5.messaging.v1.RequestMetadata">>
 
 FieldElem(msg, n, number, ty, tn, label, opt, inOneof) ==
     [msg |-> msg, name |-> Snake(n), json |-> n.src, number |-> number, type |-> ty, typeName |-> tn,
